@@ -103,6 +103,31 @@ CHECKS["C15"] = dict(
          "inside polars/pydantic-core, more preemptions, free-threaded builds.",
     design="4/C15", technique=TECH_A + "; schedule (preemption point, other thread's action) as symbolic variables")
 
+CHECKS["C16"] = dict(
+    text="Byte-level figure kernels run symbolically on the real code: hex payload of arbitrary byte strings and across the "
+         "80-character line boundary, PNG/JPEG dimension parsing with symbolic headers and symbolic preceding marker "
+         "segments, format detection, positional size lookup with last-value reuse through the real figure-only encoder, the "
+         "picture group, and - bit-exact doubles via engine B - goal sizes within one twip of inches*1440.",
+    note="Trusted: z3/CrossHair bytes/int models, engine-B tracer (validated each run). Outside: reading the file, MIME "
+         "fallback, long payloads (covered by the wrapping obligations), caption placement (C06).",
+    design="4/C16", technique=TECH_A + "; shadow-valued tracing into z3 QF_FP for the goal sizes")
+CHECKS["C17"] = dict(
+    text="assemble_rtf executed symbolically over an in-memory file system whose files are arbitrary members of a line-class "
+         "grammar of rtflite output (symbolic font-table length, figure-style merged preamble, colour table, body unit classes "
+         "incl. multi-line groups, inputs listed twice): the written text is exactly the concatenation the statement describes "
+         "and one well-formed group; single input reproduced, empty list writes nothing, missing input raises before any write.",
+    note="Trusted: the grammar G (validated against real rtf_encode output every run), in-memory open/exists. Outside: pages "
+         "as read back by a reader (concrete witnesses), more than 3 inputs.",
+    design="4/C17", technique=TECH_A)
+CHECKS["C19"] = dict(
+    text="Every Python-level validator of the configuration models, discovered through pydantic's decorator registry, is "
+         "executed symbolically on rows and matrices whose elements range over legal and illegal candidates / symbolic "
+         "numbers at symbolic positions with a symbolic field selector: ValueError exactly when some element is illegal and "
+         "never another exception type; page, body, figure and document rules through the real constructors / model validator.",
+    note="Trusted: z3/CrossHair; candidate lists for string-valued fields (dict membership concretises symbolic strings). "
+         "Outside: pydantic-core type errors, arbitrary illegal strings beyond the candidates.",
+    design="4/C19", technique=TECH_A)
+
 NOT_APPLICABLE = {
     "C18": "file-system crash-point property: effects of pathlib/tempfile/shutil and an external converter are opaque to "
            "(and blocked under) symbolic execution; a model of the file system would verify the model, not the effects",
